@@ -115,6 +115,8 @@ class Sim:
         self.worker_count = 0
         self.helper_count = 0
         self.fault_counts: dict[str, int] = {}
+        self.kill_callbacks: list = []      # called with the entity that was just killed
+        self.exit_callbacks: list = []      # called with the entity whose body has just finished
         self.hooks: list = []          # objects with on_yield(sim, ent, kind, info)
         self.sched_hooks: list = []    # objects with on_schedule(sim)
         self.starve_workers = False
@@ -285,6 +287,8 @@ class Sim:
             e.exit_code = code
         if e.kind == 'worker':
             self.quiet_polls = 0
+        for cb in self.exit_callbacks:
+            cb(e)
         self._schedule(e, leaving=True)
 
     # ------------------------------------------------------------ scheduling
@@ -450,6 +454,8 @@ class Sim:
         self.fired('kill-in:' + e.phase)
         for f in list(e.files):
             f.lose_buffers(flush_first)
+        for cb in self.kill_callbacks:
+            cb(e)
 
     def note_progress(self) -> None:
         self.quiet_polls = 0
